@@ -217,7 +217,7 @@ def _body(ctx, case, d, cache):
             with open(os.path.join(d, name), "wb") as f:
                 f.write(b"OLD LINE\n")
             pre[name] = b"OLD LINE\n"
-    res = ctx.mlr(args, stdin=inp, timeout=60)
+    res = ctx.mlr(args, stdin=inp, timeout=60, linger=10.0 if pipes else 0.0)
     if big_head and res.rc == 0:
         # timing-dependent: a second attempt on one CPU unless the first already shows a short file
         try:
@@ -265,7 +265,11 @@ def _body(ctx, case, d, cache):
         else:
             want = single_writer(ctx, fmt, rs, cache)
         want_full = (pre.get(name, b"") + want) if want is not None else None
-        if want is not None and content != want_full:
+        if want is not None and not rs and content == pre.get(name, b""):
+            # a target that was opened but received nothing: the main stream itself writes the JSON bracket pair for an empty stream only
+            # when the *input* was a bracketed JSON document, so "one bracket pair" is not pinned for an empty target; an empty file is accepted
+            ctx.label("empty-target-left-empty")
+        elif want is not None and content != want_full:
             ctx.fail(case, "target %s (%d routed records, %s, %s): content differs from the single-writer rendering of exactly its records:\n  got      %r\n  expected %r" % (
                 name, len(rs), fmt, router, content[:400], want_full[:400]), {"kind": "content", "fmt": fmt, "T": T, "nrec": len(rs), "got": content.decode("latin-1"), "want": want_full.decode("latin-1")})
             return
